@@ -12,6 +12,7 @@ package interp
 
 import (
 	"fmt"
+	"go/token"
 	"go/types"
 
 	"golang.org/x/tools/go/ssa"
@@ -76,10 +77,12 @@ type scheduler struct {
 	nextChanID  int
 	noSpawn     bool // `go` statements are recorded but not run
 	steps       int
+	timerFires    int
+	maxTimerFires int
 }
 
 func newScheduler(i *interpreter) *scheduler {
-	s := &scheduler{i: i, maxPreempt: 2}
+	s := &scheduler{i: i, maxPreempt: 2, maxTimerFires: 2}
 	main := &goroutine{id: 0, resume: make(chan struct{}, 1), started: true}
 	s.gs = []*goroutine{main}
 	i.curG = main
@@ -141,7 +144,11 @@ func (s *scheduler) runGoroutine(g *goroutine) {
 		s.pickNext(g, true)
 	}()
 	s.i.curG = g
-	call(s.i, nil, g.instr.Pos(), g.fn, g.args)
+	pos := token.NoPos
+	if g.instr != nil {
+		pos = g.instr.Pos()
+	}
+	call(s.i, nil, pos, g.fn, g.args)
 }
 
 // kill wakes every parked goroutine so that it unwinds.
@@ -259,21 +266,33 @@ func (i *interpreter) yield(what string) {
 	s.steps++
 	self := i.curG
 	en := s.enabled()
-	if len(en) <= 1 {
+	timerOpt := 0
+	if i.clock != nil && i.clock.hasPending() && s.timerFires < s.maxTimerFires {
+		timerOpt = 1
+	}
+	if len(en) <= 1 && timerOpt == 0 {
 		return
 	}
-	if s.preemptions >= s.maxPreempt {
+	if s.preemptions >= s.maxPreempt && timerOpt == 0 {
 		return
 	}
 	// order: self first so that choice 0 = no preemption
 	ordered := []*goroutine{self}
-	for _, g := range en {
-		if g != self {
-			ordered = append(ordered, g)
+	if s.preemptions < s.maxPreempt {
+		for _, g := range en {
+			if g != self {
+				ordered = append(ordered, g)
+			}
 		}
 	}
-	k := i.chooseN(len(ordered), "preempt@"+what)
+	k := i.chooseN(len(ordered)+timerOpt, "preempt@"+what)
 	if k == 0 {
+		return
+	}
+	if k == len(ordered) {
+		// the earliest pending timer fires now, while this goroutine is still running
+		s.timerFires++
+		i.clock.fireNext()
 		return
 	}
 	s.preemptions++
@@ -336,7 +355,7 @@ func (c *vchan) removeSend(ps *parkedSend) {
 }
 
 func (c *vchan) canRecv() bool {
-	return c != nil && (len(c.buf) > 0 || len(c.sendq) > 0 || c.closed || (c.timer != nil && c.timer.firedPending()))
+	return c != nil && (len(c.buf) > 0 || len(c.sendq) > 0 || c.closed)
 }
 
 func (c *vchan) doRecv() (value, bool) {
